@@ -307,6 +307,8 @@ def _concurrent(case, schedule=None):
             gc.enable()
     s.clock_calls = clock.calls
     s.clock_elapsed = clock.calls * clock.step
+    mtx = getattr(wsgi, '_mtx_build_interface_document', None)
+    s.wsdl_lock_contended = getattr(mtx, 'contended', 0)
     return s, results, built
 
 
@@ -363,6 +365,8 @@ def run_case(case):
                  'fired %d times for %d ?wsdl requests' % (len(built), n_wsdl))
     in_flight_switches = len(s.decisions)
     sig = digest([[d[0], d[2], d[3]] for d in s.decisions])
+    region_probes = dict(('switch_at:' + k, v)
+                         for k, v in s.region_hits.items())
     # minimisation needs the explicit schedule
     res = {
         'violations': V,
@@ -377,7 +381,7 @@ def run_case(case):
             'steps_in_region': s.in_region_steps,
             'instruction_steps_in_region': s.instr_steps,
             'wsdl_requests': n_wsdl,
-            'lock_contended': sum(1 for _ in ()),
+            'wsdl_lock_contended': getattr(s, 'wsdl_lock_contended', 0),
             'runs_with_racing_wsdl': 1 if n_wsdl >= 2 and any(
                 'handle_wsdl_request' in x or 'wsdl11' in x or 'xml_schema'
                 in x for x in switch_sites) else 0,
@@ -400,6 +404,7 @@ def run_case(case):
                      'region': list(sorted(s.region)[0]) if s.region
                      else None},
         'region_switches': dict(s.region_hits),
+        'extra_probes': region_probes,
         'region': sorted(s.region)[0] if s.region else None,
     }
     return res
